@@ -93,7 +93,7 @@ func (c c08Cfg) fixedMap() map[string]int {
 func (c c08Cfg) fixedFor(host string) (int, bool) {
 	v, ok := 0, false
 	for _, f := range c.fixed {
-		if strings.EqualFold(f.name, strings.TrimSuffix(host, ".")) {
+		if strings.EqualFold(strings.TrimSuffix(f.name, "."), strings.TrimSuffix(host, ".")) {
 			v, ok = f.ttl, true
 		}
 	}
@@ -232,8 +232,26 @@ func c08SleepUntil(t int64) {
 // c08Records builds the answer / authority / additional sections of an upstream reply.  Only the
 // FIRST answer carries rttl; the others (and the other sections) carry a different TTL, as in CNAME
 // chains or glue records — the cache must not care.
+// c08PickOtherTTL: later records longer-lived (glue-like), shorter-lived (CNAME 3600 → A 30) or equal
+func c08PickOtherTTL(r *VRand, stats *VStats) {
+	switch r.Intn(3) {
+	case 0:
+		c08OtherTTL = func(rttl uint32) uint32 { return rttl*3 + 7 }
+		stats.Inc("reply.later_answers_longer_lived")
+	case 1:
+		c08OtherTTL = func(rttl uint32) uint32 { return rttl / 3 }
+		stats.Inc("reply.later_answers_shorter_lived")
+	default:
+		c08OtherTTL = func(rttl uint32) uint32 { return rttl }
+		stats.Inc("reply.all_answers_same_ttl")
+	}
+}
+
+// c08OtherTTL: TTL of the answer records after the first (set by the generator before a reply is built)
+var c08OtherTTL = func(rttl uint32) uint32 { return rttl*3 + 7 }
+
 func c08Records(fq string, qtype uint16, rttl uint32, ans, n, ns int) (answers, nsec, extra []dnsmessage.RR) {
-	other := rttl*3 + 7
+	other := c08OtherTTL(rttl)
 	for i := 0; i < n; i++ {
 		id := ans + i
 		ttl := rttl
@@ -299,7 +317,7 @@ func (w *c08World) insn(t int64, key, host string, qtype uint16, rttl uint32, an
 func (w *c08World) insnMsg(t int64, key, host string, qtype uint16, rttl uint32, ans, n, ns, rcode int, resp bool, nq int, qclass uint16) {
 	w.sleepUntil(t)
 	_, ipErr := netip.ParseAddr(strings.TrimSuffix(host, "."))
-	op := fmt.Sprintf("insn t=%d key=%s host=%s qtype=%d rttl=%d ans=%d n=%d ns=%d rcode=%d ip=%s resp=%s nq=%d", t, c08Hex(key), c08Hex(host), qtype, rttl, ans, n, ns, rcode, c08B(ipErr == nil), c08B(resp), nq) + fmt.Sprintf(" class=%d", qclass)
+	op := fmt.Sprintf("insn t=%d key=%s host=%s qtype=%d rttl=%d ans=%d n=%d ns=%d rcode=%d ip=%s resp=%s nq=%d", t, c08Hex(key), c08Hex(host), qtype, rttl, ans, n, ns, rcode, c08B(ipErr == nil), c08B(resp), nq) + fmt.Sprintf(" class=%d ottl=%d", qclass, c08OtherTTL(rttl))
 	out := VRecover(func() string {
 		answers, nsec, extra := c08Records(c08Fqdn(host), qtype, rttl, ans, n, ns)
 		msg := &dnsmessage.Msg{
@@ -761,16 +779,16 @@ func c08NameVariant(r *VRand, stats *VStats, base string) string {
 
 func c08RandCfg(r *VRand, stats *VStats) c08Cfg {
 	cfg := c08Cfg{opt: r.Bool()}
-	cfg.stale = []int{0, 0, 1, 2, 5, 60, 60, 300, 60, 5, 1, -1}[r.Intn(12)]
+	cfg.stale = []int{0, 0, 1, 2, 5, 60, 60, 300, 60, 5, 1, 2}[r.Intn(12)]
 	cfg.max = []int{0, 0, 0, 1, 2, 3, 5, 0, 2, 3, -1}[r.Intn(11)]
 	switch r.Intn(4) {
 	case 0:
 	case 1:
 		cfg.fixed = []c08Fixed{{"a.test", 10}}
 	case 2:
-		cfg.fixed = []c08Fixed{{"a.test", 0}, {"ddns.example.org", 3600}}
+		cfg.fixed = []c08Fixed{{"a.test.", 0}, {"ddns.example.org", 3600}}
 	case 3:
-		cfg.fixed = []c08Fixed{{"b.test", 1}, {"DDNS.example.org", 5}, {"t", 30}, {"B.Test", 2}, {"www.x-y.example.com", -3}}
+		cfg.fixed = []c08Fixed{{"b.test", 1}, {"DDNS.example.org", 5}, {"T.", 30}, {"B.Test", 2}, {"www.x-y.example.com", -3}}
 	}
 	stats.Inc(fmt.Sprintf("cfg.opt=%s,stale%s,max%s,fixed%s", c08B(cfg.opt), c08Cls(cfg.stale), c08Cls(cfg.max), c08Cls(len(cfg.fixed))))
 	return cfg
@@ -981,6 +999,7 @@ func c08History(t *testing.T, r *VRand, st *VStream, stats *VStats, log *logrus.
 						qclass = []uint16{3, 4, 255}[r.Intn(3)] // a reply to a CH / HS / ANY-class question
 						stats.Inc("insert.reply_class_not_IN")
 					}
+					c08PickOtherTTL(r, stats)
 					w.insnMsg(now, key, host, sl.qtype, rttl, ansCounter, n, ns, rcode, resp, nq, qclass)
 					stats.Inc("op.insn")
 					if rcode != 0 || !resp || nq == 0 || qclass != dnsmessage.ClassINET {
@@ -1462,6 +1481,7 @@ func c08AskHistory(t *testing.T, r *VRand, st *VStream, stats *VStats, log *logr
 				up.rcode = 3
 			}
 			w.sleepUntil(now)
+			c08PickOtherTTL(r, stats)
 			qclass := uint16(dnsmessage.ClassINET)
 			if r.Chance(0.1) {
 				qclass = dnsmessage.ClassCHAOS
@@ -1472,7 +1492,7 @@ func c08AskHistory(t *testing.T, r *VRand, st *VStream, stats *VStats, log *logr
 				g = r.Range(2, 4) // identical requests at the same instant: singleflight followers
 				stats.Inc("ask.simultaneous_identical_requests")
 			}
-			op := fmt.Sprintf("ask t=%d name=%s qtype=%d dst=%s rttl=%d ans=%d n=%d ns=%d rcode=%d class=%d g=%d", now, c08Hex(name), qtype, c08Hex(dst.String()), up.rttl, up.ans, up.n, up.ns, up.rcode, qclass, g)
+			op := fmt.Sprintf("ask t=%d name=%s qtype=%d dst=%s rttl=%d ans=%d n=%d ns=%d rcode=%d class=%d g=%d ottl=%d", now, c08Hex(name), qtype, c08Hex(dst.String()), up.rttl, up.ans, up.n, up.ns, up.rcode, qclass, g, c08OtherTTL(up.rttl))
 			one := func() string {
 				q := new(dnsmessage.Msg)
 				q.SetQuestion(dnsmessage.Fqdn(name), qtype)
